@@ -1206,3 +1206,90 @@ func driveRegistryFrames(c *DriverCtx) error {
 }
 
 func init() { Drivers["registry-frames"] = driveRegistryFrames }
+
+// Dynamic registration (the exported Registry...Factory functions): for every table one NEW key
+// and one OVERRIDDEN key are registered at the start of the process; afterwards every table is
+// exercised both ways. The orchestrator patches the pinned tables with the logged registrations,
+// so the specification judges the run against the tables as the application changed them.
+// Must run in its own process (registrations are global and cannot be undone).
+func driveTablesDynamic(c *DriverCtx) error {
+	type change struct {
+		table string
+		key   []int
+		typ   string
+	}
+	changes := []change{}
+	regOps := []Op{}
+	for _, tn := range TableNames() {
+		tab := S.Tables[tn]
+		var kf *Field
+		for i := range S.Types[tab.Owner].Fields {
+			if S.Types[tab.Owner].Fields[i].Name == tab.KeyField {
+				kf = &S.Types[tab.Owner].Fields[i]
+			}
+		}
+		// a new key
+		var nk []int
+		if tab.KeyKind == "int" {
+			nk = make([]int, kf.W)
+			nk[kf.W-1] = 0x7b
+			nk[0] = 0x11
+		} else {
+			nk = []int{'Z', '9', 'Q'}
+		}
+		changes = append(changes, change{tn, nk, tab.Entries[0].Type})
+		// an overridden key: an existing key now selects another registered body type (if the table has two)
+		for _, e := range tab.Entries[1:] {
+			if e.Type != tab.Entries[0].Type {
+				changes = append(changes, change{tn, tab.Entries[0].Key, e.Type})
+				break
+			}
+		}
+	}
+	for _, ch := range changes {
+		regOps = append(regOps, Op{Op: "regfactory", From: ch.table, Bytes: ch.key, T: ch.typ})
+	}
+	if err := c.Run(regOps); err != nil {
+		return err
+	}
+	for _, tn := range TableNames() {
+		tab := S.Tables[tn]
+		owner := tab.Owner
+		bf := BodyField(owner)
+		mk := func(key []int, body map[string]any) map[string]any {
+			v := c.G.Value(owner, Canon)
+			v[tab.KeyField] = key
+			if body == nil {
+				v[bf.Name] = nilObj
+			} else {
+				v[bf.Name] = body
+			}
+			return v
+		}
+		cases := []change{}
+		for _, ch := range changes {
+			if ch.table == tn {
+				cases = append(cases, ch)
+			}
+		}
+		// an untouched key of the same table
+		if len(tab.Entries) > 1 {
+			e := tab.Entries[len(tab.Entries)-1]
+			cases = append(cases, change{tn, e.Key, e.Type})
+		}
+		for _, cs := range cases {
+			for i := 0; i < c.N; i++ {
+				ops := []Op{{Op: "new", O: "m", V: mk(cs.key, c.G.Value(cs.typ, Canon))}, {Op: "encode", B: "b", O: "m"},
+					{Op: "decode", B: "b", O: "r", T: owner, Fresh: true, Tag: "dynamic-table"},
+					{Op: "new", O: "m2", V: mk(cs.key, nil)}, {Op: "encode", B: "b2", O: "m2", Tag: "nil-body"},
+					{Op: "decode", B: "b2", O: "r2", T: owner, Fresh: true, Tag: "dynamic-table"}}
+				if err := c.Run(ops); err != nil {
+					return err
+				}
+			}
+		}
+	}
+	return nil
+}
+
+func init() { Drivers["tables-dynamic"] = driveTablesDynamic }
